@@ -83,11 +83,12 @@ fn lookups() {
         }
         for (pname, p) in &class.properties {
             if let PropertyKind::Canonical { serialization: PropertySerialization::SerializesAs(t) } = &p.kind {
-                // observable only where the class (or an ancestor) has a default for the property
-                if db.find_default_property(class, pname).is_none() {
-                    continue;
-                }
-                let r = rbx_binary_find(db, cname, pname);
+                let r = match rbx_binary_find(db, cname, pname) {
+                    Some(r) => Some(r),
+                    // not observable: no default and no sample value for this type
+                    None if db.find_default_property(class, pname).is_none() && sample_value(&p.data_type).is_none() => continue,
+                    None => None,
+                };
                 if r.as_deref() != Some(t.as_ref()) {
                     serialized_failures.push(format!("{}.{} -> {} (got {:?})", cname, pname, t, r));
                 }
@@ -105,12 +106,33 @@ fn lookups() {
     );
 }
 
+fn sample_value(dt: &rbx_reflection::DataType) -> Option<rbx_types::Variant> {
+    use rbx_types::{Variant, VariantType};
+    Some(match dt {
+        rbx_reflection::DataType::Enum(_) => Variant::Enum(rbx_types::Enum::from_u32(1)),
+        rbx_reflection::DataType::Value(t) => match t {
+            VariantType::Bool => Variant::Bool(true),
+            VariantType::Int32 => Variant::Int32(3),
+            VariantType::Int64 => Variant::Int64(3),
+            VariantType::Float32 => Variant::Float32(1.5),
+            VariantType::Float64 => Variant::Float64(1.5),
+            VariantType::String => Variant::String("x".to_owned()),
+            VariantType::BinaryString => Variant::BinaryString(rbx_types::BinaryString::from(vec![1u8])),
+            VariantType::Vector3 => Variant::Vector3(rbx_types::Vector3::new(1.0, 2.0, 3.0)),
+            VariantType::Color3 => Variant::Color3(rbx_types::Color3::new(0.5, 0.25, 1.0)),
+            _ => return None,
+        },
+        _ => return None,
+    })
+}
+
 /// rbx_binary's find_property_descriptors is crate-private: observe it through the writer - the name under which a property of a
 /// bare instance of the class is written is the serialized descriptor's name
 fn rbx_binary_find(db: &'static rbx_reflection::ReflectionDatabase<'static>, class: &str, prop: &str) -> Option<String> {
-    let value = db.classes[class].properties[prop].data_type.clone();
-    let default = db.find_default_property(&db.classes[class], prop)?.clone();
-    let _ = value;
+    let default = match db.find_default_property(&db.classes[class], prop) {
+        Some(v) => v.clone(),
+        None => sample_value(&db.classes[class].properties[prop].data_type)?,
+    };
     let dom = rbx_dom_weak::WeakDom::new(rbx_dom_weak::InstanceBuilder::new(class).with_property(prop, default));
     let mut out = Vec::new();
     rbx_binary::Serializer::new().compression_type(rbx_binary::CompressionType::None).serialize(&mut out, &dom, &[dom.root_ref()]).ok()?;
